@@ -585,6 +585,7 @@ def run(ctx: Ctx) -> int:
         # (origin function, what raises inside it, exception, meaning)
         ("_util:import_object", lambda c: isinstance(c, ast.Call) and (call_leaf(c) == "__import__" or (call_leaf(c) == "getattr" and len(c.args) == 2)), ["ModuleNotFoundError", "AttributeError"], "an import path given by the user cannot be imported"),
         ("_util:Path.get_content", lambda c: isinstance(c, ast.Call) and call_leaf(c) == "read" and not c.args, ["UnicodeDecodeError"], "a file given by the user is not valid text"),
+        ("_loaders_dumpers:load_basic", lambda c: isinstance(c, ast.Call) and isinstance(c.func, ast.Name) and c.func.id in ("int", "float") and c.args and not isinstance(c.args[0], ast.Constant), ["ValueError"], "text that looks like a number cannot be converted (str.isdigit accepts characters int() rejects)"),
     ]
     n_orig = 0
     for ofn, is_raiser, excs, meaning in FAMILIES:
